@@ -35,6 +35,8 @@ type RealCfg struct {
 	CmdHandler bool  // install a CommandHandler that logs and calls Execute
 	ExecErr    error // error returned by Execute
 	Ini        string // INI text read (normal mode) before the command line is parsed
+	Warmup     []string // an earlier, unrelated ParseArgs call on the same parser (nil: none)
+	HasWarmup  bool
 }
 
 // withEnv sets the given variables for the duration of f.
@@ -126,6 +128,10 @@ func RunReal(d *Decl, args []string, env map[string]string, cfg *RealCfg) *RealR
 				if err := flags.NewIniParser(b.P).Parse(strings.NewReader(cfg.Ini)); err != nil {
 					rr.IniErr = err
 				}
+			}
+			if cfg.HasWarmup {
+				Safely(func() { b.P.ParseArgs(append([]string(nil), cfg.Warmup...)) })
+				b.ExecLog, b.CbLog, rr.Handler, rr.CmdHand = nil, nil, nil, nil
 			}
 			rr.Rest, rr.Err = b.P.ParseArgs(append([]string(nil), args...))
 		})
